@@ -77,12 +77,28 @@ func builtinMathCeil(call FunctionCall) Value {
 
 func builtinMathCosh(call FunctionCall) Value {
 	number := call.Argument(0).float64()
+	if math.Abs(number) > mathExpLarge {
+		// math.Cosh forms e^|x| before halving it, which overflows too early.
+		half := math.Exp(math.Abs(number) / 2)
+		return float64Value((0.5 * half) * half)
+	}
 	return float64Value(math.Cosh(number))
+}
+
+// math.Exp (amd64 assembly) returns +Inf for arguments above 709.436 although
+// e^x is finite up to 709.782: take one factor e out (x-1 is exact there).
+const mathExpLarge = 709
+
+func mathExp(x float64) float64 {
+	if x > mathExpLarge {
+		return math.Exp(x-1) * math.E
+	}
+	return math.Exp(x)
 }
 
 func builtinMathExp(call FunctionCall) Value {
 	number := call.Argument(0).float64()
-	return float64Value(math.Exp(number))
+	return float64Value(mathExp(number))
 }
 
 func builtinMathExpm1(call FunctionCall) Value {
@@ -213,6 +229,11 @@ func builtinMathSin(call FunctionCall) Value {
 
 func builtinMathSinh(call FunctionCall) Value {
 	number := call.Argument(0).float64()
+	if math.Abs(number) > mathExpLarge {
+		// As in builtinMathCosh.
+		half := math.Exp(math.Abs(number) / 2)
+		return float64Value(math.Copysign((0.5*half)*half, number))
+	}
 	return float64Value(math.Sinh(number))
 }
 
